@@ -1,8 +1,170 @@
 import BstreamVerif.Model.Range
 import BstreamVerif.Spec.RangeMon
-namespace BstreamVerif.Props.C19
-open BstreamVerif.Range BstreamVerif.RangeMon
+import BstreamVerif.Lemmas.RangeLemmas
+/-!
+# C19 — Block range algebra is exact at every boundary and parsing never crashes
 
-theorem placeholder : True := trivial
+Theorems about the model of `/repo/range.go` (`Model/Range.lean`), over `UInt64`: every start/end
+pair, every flag pair, every chunk size. The specification side (`Spec/RangeMon.lean`) is interval
+arithmetic over `Nat`; the same `containsSpec`/`splitShape` functions are evaluated by the driver on
+the implementation's answers.
+-/
+namespace BstreamVerif.Props.C19
+open BstreamVerif.Range BstreamVerif.RangeMon BstreamVerif.RangeLemmas
+
+/-- Contains = interval arithmetic implied by bounds and flags. -/
+theorem contains_spec (r : Range) (n : UInt64) : contains r n = containsSpec r n := by
+  unfold contains containsSpec
+  rcases r with ⟨s, e, xs, xe⟩
+  cases xs <;> cases e <;> cases xe <;>
+    simp [UInt64.lt_iff_toNat_lt, ← UInt64.toNat_inj] <;> bool_omega
+
+/-- ReachedEndBlock n ⇔ no number above n is in the range (for closed ranges), never for open ones. -/
+theorem reachedEnd_spec (r : Range) (n : UInt64) : reachedEnd r n = reachedSpec r n := by
+  unfold reachedEnd reachedSpec
+  rcases r with ⟨s, _ | e, xs, xe⟩
+  · rfl
+  · have := n.toNat_lt; have := e.toNat_lt
+    cases xe <;>
+    simp [UInt64.le_iff_toNat_le, ← UInt64.toNat_inj, UInt64.toNat_sub] <;> bool_omega
+
+/-- `reachedSpec` means what C19 says: once reached, no higher number is in the range. -/
+theorem reachedSpec_sound (r : Range) (n m : UInt64) (hr : reachedSpec r n = true) (hm : n < m) :
+    containsSpec r m = false := by
+  rcases r with ⟨s, _ | e, xs, xe⟩
+  · simp [reachedSpec] at hr
+  · unfold reachedSpec at hr; unfold containsSpec
+    simp only [UInt64.lt_iff_toNat_lt] at hm
+    cases xe <;> simp at hr ⊢ <;> intros <;> omega
+
+/-- Size = distance between the bounds (for ranges accepted by the constructors, end > start). -/
+theorem size_spec (r : Range) (e : UInt64) (h : r.stop = some e) (hv : r.start < e) :
+    ∃ v, size r = some v ∧ v.toNat = e.toNat - r.start.toNat := by
+  refine ⟨e - r.start, by simp [size, h], ?_⟩
+  exact UInt64.toNat_sub_of_le _ _ (by simp only [UInt64.le_iff_toNat_le, UInt64.lt_iff_toNat_lt] at *; omega)
+
+theorem size_open (r : Range) (h : r.stop = none) : size r = none := by simp [size, h]
+
+/-- Next: starts where `r` ends, same flags, `size` long. Previous: ends where `r` starts. -/
+theorem next_spec (r : Range) (e sz : UInt64) (h : r.stop = some e) :
+    next r sz = ⟨e, some (e + sz), r.exS, r.exE⟩ := by simp [next, h]
+
+theorem previous_spec (r : Range) (e sz : UInt64) (h : r.stop = some e) :
+    previous r sz = ⟨r.start - sz, some r.start, r.exS, r.exE⟩ := by simp [previous, h]
+
+/-- IsNext holds exactly for the value-equal successor (this is the statement the pointer comparison broke). -/
+theorem isNext_iff (r nx : Range) (sz : UInt64) : isNext r nx sz = true ↔ nx = next r sz := by
+  rcases nx with ⟨a, b, c, d⟩
+  unfold isNext equals
+  generalize next r sz = q
+  rcases q with ⟨a', b', c', d'⟩
+  simp only [Bool.and_eq_true, beq_iff_eq, Range.mk.injEq]
+  constructor
+  · rintro ⟨⟨⟨h1, h2⟩, h3⟩, h4⟩; exact ⟨h1.symm, h2.symm, h3.symm, h4.symm⟩
+  · rintro ⟨h1, h2, h3, h4⟩; exact ⟨⟨⟨h1.symm, h2.symm⟩, h3.symm⟩, h4.symm⟩
+
+theorem isNext_spec (r nx : Range) (sz : UInt64) : isNext r nx sz = isNextSpec r nx sz := by
+  have h := isNext_iff r nx sz
+  unfold isNextSpec
+  cases hs : r.stop with
+  | none =>
+    have : next r sz = ⟨r.start + sz, none, r.exS, r.exE⟩ := by simp [next, hs]
+    rw [this] at h
+    rw [Bool.eq_iff_iff, h]; simp
+  | some e =>
+    have : next r sz = ⟨e, some (e + sz), r.exS, r.exE⟩ := by simp [next, hs]
+    rw [this] at h
+    rw [Bool.eq_iff_iff, h]; simp
+
+/-- **Split.** For every valid closed range and every positive chunk size, `Split` returns chunks that
+    start at the range start, end at the range end, are contiguous, have all inner boundaries on
+    multiples of the chunk size, keep the flags and are non-degenerate (`splitShape`); and, unless the
+    range is exclusive at *both* ends and was cut in ≥ 2 chunks (finding F-C19d), together they contain
+    exactly the numbers the range contains. -/
+theorem split_spec (r : Range) (e c : UInt64) (hr : r.stop = some e) (hv : r.start < e) (hc : 0 < c) :
+    ∃ cs, split r c = .ok cs ∧ splitShape r c cs = true ∧
+      ((¬ (r.exS = true ∧ r.exE = true) ∨ cs.length = 1) →
+        ∀ n, cs.any (fun ch => containsSpec ch n) = containsSpec r n) := by
+  rcases r with ⟨s, st, xs, xe⟩
+  simp only at hr hv; subst hr
+  unfold split
+  by_cases hle : e - s ≤ c
+  · refine ⟨[⟨s, some e, xs, xe⟩], by simp [hle], ?_, ?_⟩
+    · simp [splitShape, contiguous, innerStarts, properChunk, hv]
+    · intro _ n; simp
+  · obtain ⟨f1, f2, f3⟩ := init_facts s e c hv hc hle
+    have ok := splitLoop_ok xs xe e c hc s _ f1 f2 f3
+    have hs : (if e - s ≤ c then SplitResult.ok [⟨s, some e, xs, xe⟩]
+        else if hc : 0 < c then
+          let ce := (s + c) - (s + c) % c
+          SplitResult.ok (splitLoop xs xe e c hc s ce)
+        else SplitResult.panic) = .ok (splitLoop xs xe e c hc s ((s + c) - (s + c) % c)) := by
+      simp only [hle, if_false, hc, dite_true]
+    refine ⟨_, hs, ?_, ?_⟩
+    · obtain ⟨i1, i2, i3, i4, i5, i6⟩ := chunksOK_shape _ _ ok
+      simp only [splitShape, i1, i2, i3, i4, i5, i6]; simp
+    · intro hx n
+      rcases hx with hx | hx
+      · exact chunksOK_union hx n _ _ ok
+      · generalize splitLoop xs xe e c hc s _ = l at ok hx
+        match l, ok, hx with
+        | [ch], ok, _ => obtain ⟨rfl, _⟩ := ok; simp
+
+/-- F-C19d, kernel-checked witness: the full union clause is false for a both-exclusive range. -/
+theorem split_both_exclusive_counter :
+    split ⟨10, some 20, true, true⟩ 5 = .ok [⟨10, some 15, true, true⟩, ⟨15, some 20, true, true⟩] ∧
+    containsSpec ⟨10, some 20, true, true⟩ 15 = true ∧
+    ([⟨10, some 15, true, true⟩, ⟨15, some 20, true, true⟩] : List Range).any (fun ch => containsSpec ch 15) = false := by
+  refine ⟨?_, by decide, by decide⟩
+  simp [split, splitLoop]
+
+/-- Split never crashes for a positive chunk size (chunk size 0 is a division by zero in Go, outside C19). -/
+theorem split_total (r : Range) (c : UInt64) (hc : 0 < c) : split r c ≠ .panic := by
+  unfold split
+  cases r.stop with
+  | none => simp
+  | some e => by_cases h : e - r.start ≤ c <;> simp [h, hc]
+
+theorem parseBounds_total (ch : List (List UInt8)) : parseBounds ch ≠ .panic := by
+  unfold parseBounds
+  repeat' split
+  all_goals simp
+
+/-- ParseRange returns a range or an error for every input byte string — never a crash. -/
+theorem parseRange_total (inp : List UInt8) : parseRange inp ≠ .panic := by
+  unfold parseRange
+  split
+  · simp
+  · exact parseBounds_total _
+
+/-- …and a returned range is a valid inclusive closed range. -/
+theorem parseRange_ok_valid (inp : List UInt8) (r : Range) (h : parseRange inp = .ok r) :
+    ∃ e, r.stop = some e ∧ r.start < e ∧ r.exS = false ∧ r.exE = false := by
+  unfold parseRange at h
+  split at h
+  · simp at h
+  · unfold parseBounds at h
+    repeat' split at h
+    all_goals first | (simp at h; done) | skip
+    rename_i hn
+    simp only [ParseResult.ok.injEq] at h; subst h
+    unfold newRange at hn
+    split at hn
+    · rename_i heq
+      simp only [Option.some.injEq] at heq; subst heq
+      split at hn
+      · simp at hn
+      · rename_i hle
+        simp only [Option.some.injEq] at hn; subst hn
+        refine ⟨_, rfl, ?_, rfl, rfl⟩
+        simp only [UInt64.lt_iff_toNat_lt, UInt64.le_iff_toNat_le] at *; omega
+    · rename_i heq; simp at heq
+
+/-! Non-vacuity: the hypotheses of `split_spec` are met by ordinary ranges, and the model computes. -/
+example : split ⟨10, some 20, false, true⟩ 5 = .ok [⟨10, some 15, false, true⟩, ⟨15, some 20, false, true⟩] := by
+  simp [split, splitLoop]
+example : ((10 : UInt64) < 20) ∧ (0 : UInt64) < 5 := by decide
+example : parseRange [49, 48, 32, 45, 32, 50, 48] = .ok ⟨10, some 20, false, false⟩ := by decide   -- "10 - 20"
+example : parseRange [53] = .err "bounds" := by decide                                              -- "5"
 
 end BstreamVerif.Props.C19
